@@ -68,10 +68,10 @@ class ReadIdSplitReadGrouper(AbstractReadGrouper):
 
 
 class ReadTableGrouper(AbstractReadGrouper):
-    def __init__(self, table_tsv_file, read_id_column_index=0, group_id_column_index=1, delim='\t'):
+    def __init__(self, table_tsv_file, read_id_column_index=0, group_id_column_index=1, delim='\t', skip_comments=True):
         AbstractReadGrouper.__init__(self)
         logger.debug("Reading read groups from " + table_tsv_file)
-        self.read_map = load_table(table_tsv_file, read_id_column_index, group_id_column_index, delim)
+        self.read_map = load_table(table_tsv_file, read_id_column_index, group_id_column_index, delim, skip_comments)
 
     def get_group_id(self, alignment, filename=None):
         if alignment.query_name not in self.read_map:
@@ -144,13 +144,14 @@ def create_read_grouper(args, sample, chr_id):
         return ReadIdSplitReadGrouper(delim=values[1])
     elif values[0] == 'file':
         read_group_chr_filename = sample.read_group_file + "_" + chr_id
-        return ReadTableGrouper(read_group_chr_filename, 0, 1, '\t')
+        # the per-chromosome files are written by split_read_group_table and carry no comments: a read id may start with '#'
+        return ReadTableGrouper(read_group_chr_filename, 0, 1, '\t', skip_comments=False)
     else:
         logger.critical("Unsupported read grouping option")
         return DefaultReadGrouper()
 
 
-def load_table(table_tsv_file, read_id_column_index, group_id_column_index, delim):
+def load_table(table_tsv_file, read_id_column_index, group_id_column_index, delim, skip_comments=True):
     min_columns = max(read_id_column_index, group_id_column_index)
     _, outer_ext = os.path.splitext(table_tsv_file)
     if outer_ext.lower() in ['.gz', '.gzip']:
@@ -161,7 +162,7 @@ def load_table(table_tsv_file, read_id_column_index, group_id_column_index, deli
     read_map = {}
     for line in handle:
         line = line.strip()
-        if line.startswith('#') or not line:
+        if not line or (skip_comments and line.startswith('#')):
             continue
 
         column_values = line.split(delim)
